@@ -51,7 +51,9 @@ def unparse(node):
 class Fn:
     """translation state of one function: file name, variable table, object roles and aliases"""
 
-    def __init__(self, tr, fname, node, coq_name, is_method):
+    self_role = 'reader'          # what `self` is in a method (gen_facts_devices overrides it)
+
+    def __init__(self, tr, fname, node, coq_name, is_method, kwonly_ok=False):
         self.tr, self.file, self.node, self.coq_name = tr, fname, node, coq_name
         self.vars = {}            # python name -> id
         self.roles = {}           # name -> role (object parameters)
@@ -61,14 +63,23 @@ class Fn:
         self.depth = 0            # nesting of the block being translated
         self.in_prelude = False   # R2/R4 aliases are only recognised in the top-level statements before the loop
         a = node.args
-        if a.vararg or a.kwarg or a.kwonlyargs or a.defaults or a.kw_defaults or a.posonlyargs:
+        if a.vararg or a.kwarg or a.defaults or a.posonlyargs or ((a.kwonlyargs or a.kw_defaults) and not kwonly_ok):
             self.err(node, 'only plain positional parameters are in the subset')
+        # keyword-only parameters (accepted where the caller of this class says so) are value parameters after the
+        # positional ones; a default must be a constant and is only recorded: the theorems quantify over every value
+        self.defaults = {}
+        for p, dflt in zip(a.kwonlyargs, a.kw_defaults):
+            if dflt is not None:
+                if not isinstance(dflt, ast.Constant):
+                    self.err(node, 'default value that is not a constant')
+                self.defaults[p.arg] = dflt.value
         args = list(a.args)
         if is_method:
             if not args or args[0].arg != 'self':
                 self.err(node, 'method without self')
-            self.roles['self'] = 'reader'
+            self.roles['self'] = self.self_role
             args = args[1:]
+        args += list(a.kwonlyargs)
         for p in args:
             role = ROLE_OF_ANNOTATION.get(ast.unparse(p.annotation)) if p.annotation is not None else None
             self.params.append((p.arg, role))
